@@ -16,9 +16,9 @@ from ..observe import run_async, run_sync
 
 ID = "C07"
 LEVEL = "exploration"
-BUDGET = {"quick": 320, "thorough": 10000}
+BUDGET = {"quick": 480, "thorough": 10000}
 STEPS = {"quick": 25, "thorough": 50}
-SHARDS = {"quick": 8, "thorough": 16}
+SHARDS = {"quick": 16, "thorough": 16}
 RULE = (
     "Hypothesis rule-based state machine: a pool seeded with a generated graph (DAG or control-flow program) and its nodes; "
     "rules bind / unbind / select / with_entrypoint / add_nodes / as_node / Graph([node,...]) / with_name / with_inputs / "
